@@ -420,6 +420,7 @@ class Check:
         self.notes = []
         self.audit = None
         self.build_failures = []
+        self.unreadable_cases = []    # real outputs the text extractor could not read (layout changed, or ill-formed: C10's subject)
         self.assumptions = []
         self.trusted = [
             'Coq 8.16.1 kernel (coqc); vm_compute in witness/finite-table lemmas; no native_compute',
@@ -429,6 +430,16 @@ class Check:
         ]
         REPLAY.mkdir(parents=True, exist_ok=True)
         self.findings = {f['id']: f for f in known_findings(prop)}
+
+    def unreadable(self, lang, payload, unparsed):
+        """The extractor cannot read the REAL output (lines outside the layout it knows): the case cannot be judged by an
+        observation-level property. It is remembered; if the run finds no failing input, finish() reports ONE violation without
+        a failing input naming the extractor/correspondence (a layout change is harmless for the property, an ill-formed file is
+        C10's subject). Returns True so callers can `if unparsed and chk.unreadable(..): continue`."""
+        self.count(f'unreadable_real_output_{lang}')
+        if len(self.unreadable_cases) < 5:
+            self.unreadable_cases.append(dict(payload, lang=lang, unparsed=list(unparsed)[:6]))
+        return True
 
     def clear_replays(self):
         """called by ./check before a run (not before a replay): replay files of earlier runs would only confuse"""
@@ -532,6 +543,11 @@ class Check:
         lines = []
         # proof-side or build-side breakage with no failing input
         real = [v for v in self.violations if not v[2]]
+        if not real and self.unreadable_cases:
+            n = sum(v for k, v in self.counters.items() if k.startswith('unreadable_real_output_'))
+            p = self.write_replay('unreadable-output', {'correspondence': 'lib/extract.py text extractor vs the real generated text', 'cases': self.unreadable_cases,
+                                                        'what': f'{n} real output file(s) contain lines outside the layout the extractor knows; their observations could not be judged'})
+            self.violations.append((f'the extractor cannot read {n} real output file(s)', p, True))
         if not real:
             for what, msg in self.build_failures:
                 p = self.write_replay('build-failure', {'broken': what, 'detail': msg})
